@@ -45,6 +45,9 @@ type fault struct {
 	Allow  []string `json:"admissible_classes"`
 	stream []byte
 	noKeys bool
+	// retryFirst != nil: the faulty hello is the SECOND hello of the connection: retryFirst (valid, accepted) is fed to
+	// NewConn, the backend answers with a HelloRetryRequest, and stream then arrives at Conn.Read
+	retryFirst []byte
 	// mayBeValid: the mutation can yield a hello that is still well formed; then
 	// transparent handling (not an abort) is admissible too.
 	mayBeValid bool
@@ -56,13 +59,46 @@ const (
 	UM = "unexpected_message"
 )
 
-func generate(key echx.KeyPair, b base, thorough bool) []fault {
-	var out []fault
+// retryKinds are the catalogue entries built from a sealed spec: they apply equally to the hello that follows a
+// HelloRetryRequest (sealed at sequence number 1 with an empty enc).
+func retryKind(name string) bool {
+	for _, p := range []string{"outer-has-ech_outer_extensions", "outer-sni-not-public-name", "inner-without-ech-ext", "inner-with-outer-type-ech", "inner-no-tls13", "nonzero-padding", "refs-", "inner-malformed-"} {
+		if strings.HasPrefix(name, p) {
+			return true
+		}
+	}
+	return false
+}
+
+func generate(key echx.KeyPair, b base, thorough bool) []fault { return generateMode(key, b, thorough, false) }
+
+func generateMode(key echx.KeyPair, b base, thorough, retry bool) (out []fault) {
+	s := spec(key, b)
+	var first []byte
+	if retry {
+		first = s.Build().Outer.Record()
+		s.RetrySeq = 1
+		for i, e := range s.Outer.Exts { // the retried hello answers the HelloRetryRequest with another key share
+			if e.Type == tlsref.ExtKeyShare {
+				s.Outer = s.Outer.Clone()
+				s.Outer.Exts[i] = tlsref.KeyShare(65)
+			}
+		}
+	}
 	add := func(name, arg string, allow []string, stream []byte) *fault {
-		out = append(out, fault{Name: name, Arg: arg, Base: b, Allow: allow, stream: stream})
+		if retry {
+			if !retryKind(name) {
+				out = append(out, fault{Name: "-"})
+				return &out[len(out)-1]
+			}
+			name = "retried:" + name
+		}
+		out = append(out, fault{Name: name, Arg: arg, Base: b, Allow: allow, stream: stream, retryFirst: first})
 		return &out[len(out)-1]
 	}
-	s := spec(key, b)
+	if retry {
+		defer func() { out = slices.DeleteFunc(out, func(f fault) bool { return f.Name == "-" }) }()
+	}
 	good := s.Build()
 	nOuter := len(s.Outer.Exts)
 
@@ -335,7 +371,64 @@ func generate(key echx.KeyPair, b base, thorough bool) []fault {
 	return out
 }
 
+// evalRetried drives first hello -> HelloRetryRequest -> faulty second hello on a fresh Conn: Read is "the call that met it".
+func evalRetried(r *ev.Run, key echx.KeyPair, f fault) {
+	keys := echx.Keys(key)
+	replay := map[string]any{"fault": f, "first": echx.Hex(f.retryFirst), "stream": echx.Hex(f.stream), "keys": echx.KeysDoc(keys), "history": "first, backend HelloRetryRequest, stream"}
+	k := f.Name
+	sess, err, p := echx.OpenSession(f.retryFirst, keys)
+	if p != nil || err != nil || !sess.C.ECHAccepted() {
+		r.Violation("retried:first-hello-not-accepted", fmt.Sprintf("valid first hello: err=%v panic=%v", err, p), replay)
+		return
+	}
+	if _, err, p := sess.ReadOnce(); err != nil || p != nil {
+		r.Violation("retried:first-hello-read", fmt.Sprintf("reading the first hello: %v %v", err, p), replay)
+		return
+	}
+	hrr := echx.HRRRecord(tlsref.DetBytes("sid", 32))
+	if n, err, p := sess.BackendSend(hrr); err != nil || p != nil || n != len(hrr) {
+		r.Violation("retried:hrr-write", fmt.Sprintf("writing the HelloRetryRequest: %d %v %v", n, err, p), replay)
+		return
+	}
+	before := len(sess.T.OutBytes())
+	got, err, p := sess.ClientSend(f.stream)
+	oc := ""
+	switch {
+	case p != nil:
+		oc = "panic"
+		r.Violation("panic:"+k, fmt.Sprintf("panic: %v", p), replay)
+	case err == nil:
+		oc = "FORWARDED"
+		r.Violation("forwarded:"+k, fmt.Sprintf("illegal retried hello (%s %s) was not aborted: %d bytes delivered to the backend", f.Name, f.Arg, len(got)), replay)
+	default:
+		class := echx.ErrClass(err)
+		oc = "abort:" + class
+		if !slices.Contains(f.Allow, class) {
+			r.Violation(fmt.Sprintf("wrong-class:%s:%s", k, class), fmt.Sprintf("error class %s (%v), admissible %v", class, err, f.Allow), replay)
+		}
+		if len(got) > 0 {
+			r.Violation("readable-after-abort:"+k, fmt.Sprintf("%d bytes delivered together with the abort", len(got)), replay)
+		}
+		if more, err2, _ := sess.ReadOnce(); len(more) > 0 || err2 == nil {
+			r.Violation("readable-after-abort:"+k, fmt.Sprintf("a later Read returns %d bytes, err=%v", len(more), err2), replay)
+		}
+		out := sess.T.OutBytes()[before:]
+		want := echx.AlertFor(class)
+		if want != nil && !bytes.Equal(out, want) {
+			r.Violation("alert:"+alertKey(out), fmt.Sprintf("client received %x, want exactly the fatal alert %x (fault %s)", out, want, f.Name), replay)
+		}
+		if want != nil && sess.T.CloseCount == 0 {
+			r.Violation("no-close-after-alert", "transport not closed after the fatal alert (fault "+f.Name+")", replay)
+		}
+	}
+	r.Eval(string(f.stream)+"retried", f.Name+" -> "+oc)
+}
+
 func evalFault(r *ev.Run, key echx.KeyPair, f fault) {
+	if f.retryFirst != nil {
+		evalRetried(r, key, f)
+		return
+	}
 	var keys []ech.Key
 	if !f.noKeys {
 		keys = echx.Keys(key)
@@ -399,7 +492,7 @@ func alertKey(out []byte) string {
 }
 
 func Run(r *ev.Run) {
-	r.Rule("fault enumeration (E1): for each base hello (3 AEADs x compression on/off x ECH extension first/middle/last) the catalogue: ech_outer_extensions in the outer hello at every position; ECH type inner at every position; unknown ECH types; authentic payload with 5 non-matching/absent outer SNIs; inner without / with outer-type ECH extension; inner not offering TLS 1.3; every padding byte x every bit non-zero; reference list odd/short/long/empty/out-of-order (every adjacent swap)/repeated (every element)/absent (every element)/naming 0xfe0d,0xfd00 at every position/two markers; +-1 on every length field of outer and of encoded inner (re-sealed); record cut at every byte (then end of stream / a non-handshake record / a garbage continuation); non-handshake first record; plus all pairs of single faults that compose (multi-fault). distinct = distinct (stream, keys?) inputs")
+	r.Rule("fault enumeration (E1): for each base hello (3 AEADs x compression on/off x ECH extension first/middle/last) the catalogue: ech_outer_extensions in the outer hello at every position; ECH type inner at every position; unknown ECH types; authentic payload with 5 non-matching/absent outer SNIs; inner without / with outer-type ECH extension; inner not offering TLS 1.3; every padding byte x every bit non-zero; reference list odd/short/long/empty/out-of-order (every adjacent swap)/repeated (every element)/absent (every element)/naming 0xfe0d,0xfd00 at every position/two markers; +-1 on every length field of outer and of encoded inner (re-sealed); record cut at every byte (then end of stream / a non-handshake record / a garbage continuation); non-handshake first record; every sealed-spec entry of the catalogue (outer SNI, inner ECH extension, TLS 1.3, padding, reference-list faults, malformed inner extensions) ALSO applied to the hello that follows a HelloRetryRequest (history: valid first hello, backend HRR, faulty second hello sealed at sequence number 1; Conn.Read is the call that meets it); plus all pairs of single faults that compose (multi-fault). distinct = distinct (stream, keys?) inputs")
 	r.Assume("reference sender validated against crypto/tls", "admissible error classes per fault are taken from the property statement and draft §5.1/§7/§7.1; for +-1 length mutations that leave a well-formed hello, transparent handling is admissible")
 	key := echx.NewKey("c04", 42, echx.AllSuites, pubName)
 	if err := c03.SelfValidate(echx.NewKey("c03", 7, echx.AllSuites, "public.example")); err != nil {
@@ -413,6 +506,7 @@ func Run(r *ev.Run) {
 					continue
 				}
 				all = append(all, generate(key, base{aead, comp, pos}, r.Thorough())...)
+				all = append(all, generateMode(key, base{aead, comp, pos}, r.Thorough(), true)...)
 			}
 		}
 	}
